@@ -69,6 +69,8 @@ def check(run):
     # L1: the IP address kernels against their Lean models (Props/C10: kernel theorems)
     import hostcorr
     hostcorr.explore(run, binp, 3000 if run.tier == "quick" else 60000)
+    # parse_host itself (both types) against Model/HostParse.lean (Props/C10: parse_host_is_host_parser)
+    hostcorr.explore_parse_host(run, binp, 6000 if run.tier == "quick" else 120000)
     n = 24000 if run.tier == "quick" else 200000
     cases = host_cases(run.rng, n)
     res = urlcorr.explore(run, binp, cases)
